@@ -14,8 +14,10 @@
  * A read delivers arbitrary octets except at the observed positions; a write
  * updates the observed positions that it covers.
  *
- * Region monitor: every access must lie inside [g_ps_lo, g_ps_hi) =
- * [checksum.address, data.address + data.size)  (CHECK).
+ * Region monitor: every access that touches an octet (n > 0) must lie inside
+ * [g_ps_lo, g_ps_hi) = [checksum.address, data.address + data.size)  (CHECK).
+ * (A zero-length access touches nothing; its address may be the one-past-the-
+ * end address, which is 0 modulo 2^32 for a region ending at the top.)
  *
  * Fault injection: every call may transfer short (0 .. n-1 octets, chosen
  * nondeterministically; a short write is torn after that many octets); this
@@ -68,7 +70,7 @@ extern uint32_t g_ps_crun, g_ps_cfinal;     /* running value / value after the w
 static size_t st_medium_read(void *dst, uint32_t address, size_t n)
 {
   uint8_t *d = (uint8_t *)dst;
-  if (!((uint64_t)address >= g_ps_lo && (uint64_t)address <= g_ps_hi && (uint64_t)n <= g_ps_hi - (uint64_t)address)) {
+  if (n > 0 && !((uint64_t)address >= g_ps_lo && (uint64_t)address <= g_ps_hi && (uint64_t)n <= g_ps_hi - (uint64_t)address)) {
     CHECK(0, "PM region monitor: medium read inside [checksum.address, data.address + data.size)");
     return n;
   }
@@ -94,7 +96,7 @@ static size_t st_medium_read(void *dst, uint32_t address, size_t n)
 static size_t st_medium_write(uint32_t address, const void *src, size_t n)
 {
   const uint8_t *s = (const uint8_t *)src;
-  if (!((uint64_t)address >= g_ps_lo && (uint64_t)address <= g_ps_hi && (uint64_t)n <= g_ps_hi - (uint64_t)address)) {
+  if (n > 0 && !((uint64_t)address >= g_ps_lo && (uint64_t)address <= g_ps_hi && (uint64_t)n <= g_ps_hi - (uint64_t)address)) {
     CHECK(0, "PM region monitor: medium write inside [checksum.address, data.address + data.size)");
     return n;
   }
